@@ -163,7 +163,7 @@ def run(ctx):
                 dc.append({"iv": iv, "members": members, "signer": signer, "ts": ms * 1000000, "rel": False, "mutate": ""})
     for mfield in FIELDS:
         dc.append({"iv": 1, "members": [0, 1, 2], "signer": 1, "ts": 1700000000001 * 1000000, "rel": False, "mutate": mfield})
-    for q in range(-8, 9):
+    for q in range(-8, 14):
         dc.append({"iv": 1, "members": [0, 1, 2], "signer": 1, "ts": q * 250 * 1000000, "rel": True, "mutate": ""})
     fin = os.path.join(ctx.workdir, "c09.in")
     fout = os.path.join(ctx.workdir, "c09.out")
@@ -202,6 +202,8 @@ def run(ctx):
         else:
             if not o["sig_ok"]:
                 pred_fail.append(("honest signature rejected", c))
+        if (not c["mutate"]) and o["ts"] // 1000000 >= o["now1"] // 1000000 + 2 * c["iv"] * 1000 and o["ts_ok"]:
+            pred_fail.append(("timestamp two or more slots ahead of the clock accepted", dict(case=c, obs=o)))
         if c["signer"] not in c["members"] and o["valid"]:
             pred_fail.append(("non-member accepted as producer", c))
     txt = ["From Coq Require Import ZArith List Bool.", "From Verif Require Import Dpos.Slot.", "Import ListNotations.",
